@@ -106,6 +106,7 @@ def riskyIn (ge : GEnv) (f : Func) : Bool :=
     let constVal := i.args.any fun a => match a with | .val (.const _) => true | _ => false
     let badCond := i.row == 28 && i.args.any fun a => match a with
       | .val (.loc x) => (match lookup e x with | some t' => !Types.equal t' (.int 1) | none => false)
+      | .val (.glob n) => (match lookupG ge n with | some t' => !Types.equal t' (.int 1) | none => false)
       | _ => false
     -- calls: a return type written as a function type (the signature of a variadic callee) and variadic callees are outside the fragment
     let badCall := (i.row == 74 || i.row == 75) &&
